@@ -13,8 +13,9 @@ THEOREMS = ["PotasscoVerif.C13.C13_cmdstring", "PotasscoVerif.C13.C13_cmdstring_
             "PotasscoVerif.C13.C13_long_sep", "PotasscoVerif.C13.C13_long_implicit", "PotasscoVerif.C13.C13_short_attached", "PotasscoVerif.C13.C13_short_sep",
             "PotasscoVerif.C13.C13_flag_group", "PotasscoVerif.C13.C13_long_neg", "PotasscoVerif.C13.C13_long_unknown", "PotasscoVerif.C13.handleShort_group_then",
             "PotasscoVerif.C13.C13_argv", "PotasscoVerif.C13.C13_argv_loop", "PotasscoVerif.C13.C13_cfg",
-            "PotasscoVerif.C13.C13_remaining_sublist", "PotasscoVerif.C13.C13_cmdline", "PotasscoVerif.C13.C13_cmdline_in_place"]
-EXTRA_MODULES = ["PotasscoVerif.Props.C13b", "PotasscoVerif.Props.C13c", "PotasscoVerif.Props.C13d"]
+            "PotasscoVerif.C13.C13_remaining_sublist", "PotasscoVerif.C13.C13_cmdline", "PotasscoVerif.C13.C13_cmdline_in_place",
+            "PotasscoVerif.C13.C13_cmdstring_mixed", "PotasscoVerif.C13.C13_cmdstring_mixed_parse"]
+EXTRA_MODULES = ["PotasscoVerif.Props.C13b", "PotasscoVerif.Props.C13c", "PotasscoVerif.Props.C13d", "PotasscoVerif.Props.C13e"]
 PARTIAL = {}
 BSIZES = (4096,)
 RULE = ("contexts of 2..8 options (required-argument / implicit-value / flag kinds, optional one-character alias, negatable flags, names sharing prefixes); intended lists of 0..8 "
@@ -25,7 +26,8 @@ TRUSTED = ["std::isspace in the C locale (blank, \\t..\\r)"]
 ASSUMPTIONS = ["option names are made of letters and '-', do not start with 'no-'; values contain no NUL"]
 TECHNIQUE = "Lean 4 theorems on the parser model (whole argument lists in mixed spellings parse to the intended pairs; tokenizer inverse of quoting; terminator) + differential correspondence with the real parsers + intended-list oracle"
 LEVEL_TEXT = ("C13_cmdstring(_parse): for EVERY token list (any bytes but NUL: blanks, quotes, backslashes, empty tokens) tokenizing the quoted command string gives back the tokens, so "
-              "string parsing equals argv parsing; C13_terminator: after '--' everything is left in order; spelling lemmas: --name=value, --name value, --name (implicit), --no-name, -avalue, "
+              "string parsing equals argv parsing; C13_cmdstring_mixed(_parse) (Props/C13e.lean): the same when every token is written quoted OR, if it is plain (no NUL, blank, quote; no two backslashes in a row; not starting with white space), as it is — "
+              "backslashes elsewhere are literal, also at the very end of the string; C13_terminator: after '--' everything is left in order; spelling lemmas: --name=value, --name value, --name (implicit), --no-name, -avalue, "
               "-a value and grouped flags each add exactly the intended (option, value) pair and consume exactly their tokens, given that the key resolves to the option (C14). "
               "C13_argv (Props/C13b.lean): the inductive relation `Sp` generates every way of writing a list of intended pairs, positional tokens, unknown short and long options and a '--' tail in any mixture of the spellings "
               "--name=value, --name value, unique prefix, --name (flag/implicit), --no-name (negatable), -avalue, -a value, grouped flags, grouped flags ending in a value option (-abcV, -abc V); "
@@ -41,7 +43,7 @@ LEVEL_NOTE = ("Proof + correspondence (~6k quick / 150k thorough cases, each run
 
 def hexs(b): return "-" if not b else "".join("%02x" % c for c in b)
 NAMES = [b"verbose", b"verb", b"version", b"help", b"file", b"filter", b"stats", b"time-limit", b"t", b"opt", b"out", b"x", b"number"]
-VALUES = [b"", b"1", b"-1", b"a b", b"x=y", b"--weird", b"-", b"\"q\"", b"it's", b"back\\slash", b"tab\tsep", b"\\", b"a\\\"b", b"42", b"\xc3\xa4", b"=", b"no"]
+VALUES = [b"", b"1", b"-1", b"a b", b"x=y", b"--weird", b"-", b"\"q\"", b"it's", b"back\\slash", b"C:\\tmp\\", b"dir\\", b"tab\tsep", b"\\", b"a\\\"b", b"42", b"\xc3\xa4", b"=", b"no"]
 
 def gen_ctx(rng):
     names = rng.sample(NAMES, rng.randint(2, 8))
@@ -101,8 +103,11 @@ def spell(rng, opts, k, v, allow_flag_value):
         elif allow_flag_value: ch.append([b"--" + nm + b"=" + v])
     return rng.choice(ch) if ch else None
 
-def quote(tok):
+def quote(tok, salt=1):
     if tok and not any(c in b" \t\n\r\x0b\x0c\"'\\" for c in tok): return tok
+    # a backslash is an escape only in front of a quote or another backslash: a token with backslashes elsewhere (also at its very end,
+    # also at the very end of the command string) may be written as it is
+    if tok and salt % 2 == 0 and not any(c in b" \t\n\r\x0b\x0c\"'" for c in tok) and b"\\\\" not in tok: return tok
     return b'"' + tok.replace(b"\\", b"\\\\").replace(b'"', b'\\"') + b'"'
 
 def gen_intended(rng):
@@ -194,7 +199,7 @@ def evaluate(ctx, cases):
             # the argc/argv entry point: the caller's argc anywhere in 1..count (the code advances it to the null pointer), cells behind it
             extra = (" N:%d" % c["argc0"] if c.get("argc0") else "") + "".join(" J:" + hexs(j) for j in c.get("junk", []))
             lines.append(head(c, "a") + "".join(" T:" + hexs(t) for t in c["toks"]) + extra); meta.append((ci, "a"))
-            cmd = b" ".join(quote(t) for t in c["toks"])
+            cmd = b" ".join(quote(t, ci + k) for k, t in enumerate(c["toks"]))
             lines.append(head(c, "s") + " S:" + hexs(cmd)); meta.append((ci, "s"))
     impl = ctx.impl(lines); model = ctx.model(lines)
     for (ci, mode), l, i, m in zip(meta, lines, impl, model):
